@@ -117,6 +117,10 @@ class ZorgFileCompiler(ZorgFileListener):
             and self._s.note_date is None
         ):
             self._s.note_date = get_datetime().date()
+        elif not _is_date_word(ctx):
+            # A date that is (part of) a property value, a link or a tag is
+            # metadata of the header, not the date of the header.
+            return
         elif self._s.in_h4_header:
             self._s.h4_date = get_datetime().date()
         elif self._s.in_h3_header:
@@ -590,6 +594,19 @@ def _get_default_tags_map() -> _TagDict:
         "people": [],
         "projects": [],
     }
+
+
+def _is_date_word(ctx: ZorgFileParser.DateContext) -> bool:
+    """Returns True iff the date {ctx} is a word of its own.
+
+    That is: not the value of a property, the target of a link or the name of
+    a tag (all of which reach the date rule through 'id' as well).
+    """
+    id_ctx = ctx.parentCtx.parentCtx if ctx.parentCtx is not None else None
+    id_group = getattr(id_ctx, "parentCtx", None)
+    return isinstance(id_group, ZorgFileParser.Id_groupContext) and isinstance(
+        id_group.parentCtx, ZorgFileParser.Unquoted_wordContext
+    )
 
 
 @dataclass
